@@ -27,7 +27,10 @@ partial def getAReg (j : Json) : Except String (AReg ℚ) := do
   | "circle" => pure (.circle (← fPt j "c") (← fRat j "r"))
   | "ellipse" => pure (.ellipse (← fPt j "c") (← fRat j "w") (← fRat j "h") (← getAng j))
   | "rectangle" => pure (.rect (← fPt j "c") (← fRat j "w") (← fRat j "h") (← getAng j))
-  | "polygon" => pure (.polygon (← (← fArr j "v").mapM getPt))
+  | "polygon" =>
+    match j.getObjVal? "center" with
+    | .ok cj => pure (.regularPolygon (← getPt cj) (← (← fArr j "v").mapM getPt))
+    | .error _ => pure (.polygon (← (← fArr j "v").mapM getPt))
   | "circle_annulus" => pure (.circleAnnulus (← fPt j "c") (← fRat j "r1") (← fRat j "r2"))
   | "ellipse_annulus" =>
     pure (.ellipseAnnulus (← fPt j "c") (← fRat j "w1") (← fRat j "h1") (← fRat j "w2") (← fRat j "h2")
